@@ -32,7 +32,9 @@ def jsonable(o):
 
     if isinstance(o, dict):
         return {str(k): jsonable(v) for k, v in o.items()}
-    if isinstance(o, (list, tuple, set)):
+    if isinstance(o, (set, frozenset)):
+        return sorted((jsonable(v) for v in o), key=lambda v: json.dumps(v, sort_keys=True, default=str))
+    if isinstance(o, (list, tuple)):
         return [jsonable(v) for v in o]
     if isinstance(o, (np.integer,)):
         return int(o)
@@ -114,6 +116,8 @@ class Check:
         else:
             pool = C.ForkPool(timeout=cfg["timeout"])
             results = pool.run(self._guarded, descs, deadline=t0 + cfg["budget"])
+        if os.environ.get("VERIF_DIGEST_OUT"):
+            self.write_digests(os.environ["VERIF_DIGEST_OUT"], descs, results)
         agg = self.aggregate(descs, results)
         agg["gen_s"] = gen_s
         viols = self.triage(agg, confirm=not a.no_confirm)
@@ -132,6 +136,25 @@ class Check:
 
     def _guarded(self, desc):
         return self.run_case(desc)
+
+    def write_digests(self, path, descs, results):
+        """Determinism self-test support: one line per case - digest of the case description and of everything its execution
+        produced (outcome, violations with all details, counters, evaluations).  Wall-clock cuts are 'cut', not digests."""
+        rows = []
+        for d, r in zip(descs, results):
+            dd = seeds.digest(jsonable({k: v for k, v in d.items() if k != "env"}) if isinstance(d, dict) else repr(d))
+            if r is None or r[0] in ("timeout", "died"):
+                rows.append([dd, "cut"])
+            elif r[0] != "ok":
+                rows.append([dd, "exc:" + seeds.digest(str(r[1])[:300])])
+            else:
+                val = r[1]
+                body = dict(outcome=val.get("outcome"), key=val.get("key"), evaluations=val.get("evaluations"), nontrivial=bool(val.get("nontrivial")),
+                            viol=sorted(json.dumps(jsonable(v), sort_keys=True, default=str) for v in (val.get("viol") or [])),
+                            counters={k: v for k, v in (val.get("counters") or {}).items() if not k.startswith("interp_")})
+                rows.append([dd, seeds.digest(jsonable(body))])
+        with open(path, "w") as f:
+            json.dump(rows, f)
 
     # ---- several interpreters (World P seams that are fixed at interpreter start: hash seed, heap layout)
     def interpreters(self, tier, seed):
